@@ -2,6 +2,7 @@ package props
 
 import (
 	"fmt"
+	"regexp"
 	"strings"
 
 	"github.com/llir/llvm/ir"
@@ -155,8 +156,101 @@ func c08ehText(s c08ehShape, form string) string {
 	return "declare void @vf()\ndeclare i32 @__CxxFrameHandler3(...)\n" + b.String()
 }
 
+// c08ehNested: funclets nested in an UNNAMED parent pad (`cleanuppad within %3`, `catchswitch within
+// %3`): the parent reference is a fourth kind of use of an unnamed token. Explicit numbering (the
+// LLVM-validated model), implicit result numbers, implicit labels, leading zeros.
+const c08ehNestedText = `declare i32 @__CxxFrameHandler3(...)
+declare void @vf()
+define void @f() personality i8* bitcast (i32 (...)* @__CxxFrameHandler3 to i8*) {
+  invoke void @vf() to label %1 unwind label %2
+1:
+  ret void
+2:
+  %3 = cleanuppad within none []
+  invoke void @vf() [ "funclet"(token %3) ] to label %4 unwind label %5
+4:
+  cleanupret from %3 unwind to caller
+5:
+  %6 = cleanuppad within %3 []
+  cleanupret from %6 unwind to caller
+}
+define void @g() personality i8* bitcast (i32 (...)* @__CxxFrameHandler3 to i8*) {
+  invoke void @vf() to label %1 unwind label %2
+1:
+  ret void
+2:
+  %3 = cleanuppad within none []
+  invoke void @vf() [ "funclet"(token %3) ] to label %4 unwind label %5
+4:
+  cleanupret from %3 unwind to caller
+5:
+  %6 = catchswitch within %3 [label %7] unwind to caller
+7:
+  %8 = catchpad within %6 [i8* null, i32 64, i8* null]
+  catchret from %8 to label %4
+}
+`
+
+var (
+	reC08ehDef   = regexp.MustCompile(`(?m)^(\s*)%\d+ = `)
+	reC08ehLabel = regexp.MustCompile(`(?m)^\d+:\n`)
+)
+
+func c08ehNested(c *fw.Check) {
+	forms := map[string]string{
+		"explicit":        c08ehNestedText,
+		"implicit":        reC08ehDef.ReplaceAllString(c08ehNestedText, "$1"),
+		"implicit-labels": reC08ehLabel.ReplaceAllString(reC08ehDef.ReplaceAllString(c08ehNestedText, "$1"), ""),
+		"explicit-zeros":  reC08label.ReplaceAllString(reC08num.ReplaceAllString(c08ehNestedText, "%0$1"), "0$1:"),
+	}
+	ref, e, ok, _ := fw.AsDis(c08ehNestedText)
+	if !ok {
+		fw.Fatalf("C08 nested funclet model rejected by LLVM: %s", e)
+	}
+	for _, form := range []string{"explicit", "implicit", "implicit-labels", "explicit-zeros"} {
+		text := forms[form]
+		if okL, eL := fw.LLVMAccepts(text); !okL {
+			fw.Fatalf("C08 nested funclet text (%s) rejected by LLVM:\n%s\n%s", form, text, eL)
+		}
+		c.DistinctN(1)
+		cs := c08case{Shape: "nested eh funclets, unnamed parent pad", Form: form, Text: text}
+		report := func(kind, what, got string) {
+			cs.What, cs.Got = what, fw.Trunc(got, 1500)
+			c.Violation("eh-nested/"+kind+"/"+form, cs)
+		}
+		m, errs, pan := parseTry(text)
+		if pan != "" {
+			report("parser-panics", pan, "")
+			continue
+		}
+		if errs != "" {
+			report("parser-rejects", "the parser rejects a numbering LLVM accepts: "+fw.Trunc(errs, 300), "")
+			continue
+		}
+		var printed string
+		if p := fw.Try(func() { printed = m.String() }); p != "" {
+			report("print-panics", p, "")
+			continue
+		}
+		got, e2, ok2, _ := fw.AsDis(printed)
+		if !ok2 {
+			report("llvm-rejects-printed", fw.Trunc(e2, 300), printed)
+			continue
+		}
+		if o1, o2 := llcanon.Diff(llcanon.Canon(ref), llcanon.Canon(got)); len(o1)+len(o2) > 0 {
+			report("binding-differs", "LLVM reads the printed functions differently from the model text", printed)
+			continue
+		}
+		if p2 := m.String(); p2 != printed {
+			report("print-not-idempotent", "printing twice gives different text", p2)
+		}
+		c.Valid(1)
+	}
+}
+
 func c08eh(c *fw.Check) {
 	c08ehAPI(c, "C08")
+	c08ehNested(c)
 	var shapes []c08ehShape
 	for m := 0; m < 256; m++ {
 		shapes = append(shapes, c08ehShape{m&1 != 0, m&2 != 0, m&4 != 0, m&8 != 0, m&16 != 0, m&32 != 0, m&64 != 0, m&128 != 0})
